@@ -302,6 +302,10 @@ func (fc *funcContext) translateExpr(expr ast.Expr) *expression {
 				// normalises the negative zero JavaScript produces for -0.
 				return fc.fixNumber(fc.formatExpr("-%e", e.X), basic)
 			default:
+				if inner, ok := e.X.(*ast.UnaryExpr); ok && inner.Op == token.SUB {
+					// "- -x" must not be printed as the decrement operator "--x".
+					return fc.formatExpr("-(%e)", e.X)
+				}
 				return fc.formatExpr("-%e", e.X)
 			}
 		case token.XOR:
